@@ -205,6 +205,11 @@ func (q *qWorld) afterPanic(ctx sdk.Context, chainIdx int, res, stack, votes, cl
 		desc := fmt.Sprintf("panic on input class [%s] in %s, a function the regenerated call graph reaches from a block hook — not contained by the transaction runner: %s", class, fn, res)
 		e.violate("contain-block-reachable "+fn, desc, append([]string{"# " + desc}, replay...))
 	}
+	if votes == "single" && specGated[fn] {
+		// independent of the regenerated gate (which follows the code): the specification's list, `claimExecutionFuncs` of Props/C20.lean
+		desc := fmt.Sprintf("a single bridger's vote (no quorum) on input class [%s] executed the claim: panic in %s, a claim-execution function that only a vote completing the 2/3 quorum may reach: %s", class, fn, res)
+		e.violate("contain-single-vote-executes "+fn, desc, append([]string{"# " + desc}, replay...))
+	}
 	if votes == "single" && !info.Ungated {
 		desc := fmt.Sprintf("a single bridger's vote (no quorum) on input class [%s] reached the panic in %s, which the regenerated graph places behind the vote-power threshold of TryAttestation: %s", class, fn, res)
 		e.violate("contain-gate-bypassed "+fn, desc, append([]string{"# " + desc}, replay...))
@@ -297,6 +302,13 @@ func (q *qWorld) vote(ctx sdk.Context, c int, voter int, mk func(bridger string,
 }
 
 var lastStackFull string
+
+// specGated mirrors `claimExecutionFuncs` of Props/C20.lean: functions that execute an OBSERVED claim
+var specGated = map[string]bool{
+	"x/crosschain/keeper.Keeper.OutgoingTxBatchExecuted": true, "x/crosschain/keeper.Keeper.cleanupTimedOutBatches": true,
+	"x/crosschain/keeper.Keeper.CancelOutgoingTxBatch": true, "x/crosschain/keeper.Keeper.UpdateOracleSetExecuted": true,
+	"x/crosschain/keeper.Keeper.SavePendingExecuteClaim": true, "x/crosschain/keeper.Keeper.IterateAttestationAndClaim": true,
+}
 
 func (e *env) containSweep(t *testing.T) {
 	e.out.Reset("contain")
